@@ -683,11 +683,10 @@ FASTOR_INLINE __m128i _mm_mul_epi32x(__m128i a, __m128i b)
 
 #ifdef FASTOR_SSE2_IMPL
 FASTOR_INLINE __m128i _mm_mul_epi64(__m128i _a, __m128i _b) {
-    __m128i out;
-   for (FASTOR_INDEX i=0; i<2; i++) {
-       ((int64_t*)&out)[i] = (((int64_t*)&_a)[i])*(((int64_t*)&_b)[i]);
-   }
-    return out;
+    int64_t a[2], b[2];
+    _mm_storeu_si128((__m128i*)a,_a);
+    _mm_storeu_si128((__m128i*)b,_b);
+    return _mm_set_epi64x(a[1]*b[1],a[0]*b[0]);
 }
 #endif
 
